@@ -84,6 +84,13 @@ func genC12(c *ctx) {
 }
 
 func genC13(c *ctx) {
+	if c.chance(0.5) {
+		// exactness on generated configurations
+		c.modelProfile()
+		c.add(&h.Event{K: "quiesce"})
+		c.add(&h.Event{K: "check", Check: &h.Check{Key: c.key()}})
+		return
+	}
 	p := c.baseProfile()
 	p.HalfTyped = []float64{0, 0.05, 0.15}[c.n(3)]
 	p.ExprDepth = 2 + c.n(3)
